@@ -991,9 +991,9 @@ package genql
 
 // C03: HAVING judges the finished row of the group (its grouping columns and `*`), and the row put out is the row it judged
 //@ func ExecGroupBy
-//@   at-call mapstore@loop5 assert the-group-row-has-its-columns-before-having-sees-it[C03]: !iter(ExecHaving)
-//@   at-call mapstore:["*"] assert the-group-row-has-its-members-before-having-sees-it[C03]: !iter(ExecHaving)
-//@   at-call ExecHaving assert having-is-asked-about-this-query[C03]: arg0 == query
+//@   at-call groupRow assert the-group-row-is-built-from-the-key-of-this-group-before-having-sees-it[C03]: !iter(ExecHaving) && arg0 == *rangevalue
+//@   at-call mapstore:["*"] assert the-group-row-has-its-members-before-having-sees-it[C03]: !iter(ExecHaving) && iter(groupRow) && target == callresult(groupRow, 0)
+//@   at-call ExecHaving assert having-is-asked-about-this-query-and-this-group[C03]: arg0 == query && iter(groupRow) && arg1 == callresult(groupRow, 0)
 //@   at-call append:slice, assert a-group-is-put-out-iff-having-holds-for-its-row[C03]: iter(ExecHaving) && callresult(ExecHaving, 0) && appended == any(callarg(ExecHaving, 1))
 
 // C17: each rewrite reads what the step before it left, and the parser reads what the last one left; bracket positions
@@ -1019,3 +1019,12 @@ package genql
 // row is projected by itself, also when the select list holds nothing but aggregates
 //@ func ExecSelect
 //@   at-call SelectExpr:Map{ assert whole-table-aggregation-only-without-group-by[C03]: len(query.groupDefinition) == 0
+
+// C03/C11: the row of a group is made of objects of its own: the key's values are put into it, nothing of the key is written
+//@ func groupRow
+//@   ensures a-row-of-its-own[C03,C11,C12]: fresh(result)
+//@   unordered append(paths, column) :: the columns are collected from a map and sorted (sort.Strings) before they are used: see the next clause
+//@   at-call groupObject assert the-columns-are-sorted-before-they-are-nested[C12,C03]: called(Strings) && arg0 == key && arg2 == 0
+//@ func groupObject
+//@   requires depth-within-every-column: depth >= 0
+//@   ensures an-object-of-its-own[C03,C11,C12]: fresh(result)
